@@ -86,7 +86,7 @@ fn plan(prop: &str) -> Vec<(Sim, usize, usize)> {
         "C01" => vec![(AStore, 6000, 400_000), (BDec, 12_000, 600_000), (ACorner, 12, 400), (BOneshot, 3000, 100_000)],
         "C02" => vec![(BEnc, 16_000, 800_000), (AStore, 4000, 300_000), (BDec, 3000, 100_000), (ACorner, 8, 300)],
         "C03" => vec![(AStore, 6000, 400_000), (BEnc, 8000, 400_000), (BDec, 8000, 400_000), (ACorner, 24, 600)],
-        "C04" => vec![(BEnc, 14_000, 700_000), (BDec, 10_000, 500_000), (AStore, 3000, 200_000), (Jumbo, 0, 4)],
+        "C04" => vec![(Jumbo, 1, 4), (BEnc, 14_000, 700_000), (BDec, 10_000, 500_000), (AStore, 3000, 200_000)],
         "C05" => vec![(BEnc, 14_000, 800_000), (BDec, 12_000, 700_000), (AStore, 3000, 200_000)],
         "C06" => vec![(BEnc, 12_000, 600_000), (BDec, 12_000, 600_000), (BOneshot, 10_000, 500_000), (AStore, 3000, 200_000), (ACorner, 24, 600)],
         "C07" => vec![(BEnc, 14_000, 700_000), (BDec, 14_000, 700_000), (AStore, 3000, 200_000)],
@@ -544,15 +544,12 @@ fn cmd_check(args: &Args) -> i32 {
     }
     warm_tables();
 
-    let mut jobs: Vec<(Sim, usize)> = plan(&prop)
-        .into_iter()
-        .map(|(s, q, t)| (s, scale_for_profile(if tier == "thorough" { t } else { q })))
-        .collect();
+    let mut jobs: Vec<(Sim, usize)> = planned_jobs(&prop, &tier);
     if let Some(only) = args.get("sim").and_then(Sim::from_name) {
         jobs.retain(|j| j.0 == only);
     }
     if let Some(n) = args.get("runs").and_then(|v| v.parse::<usize>().ok()) {
-        for j in &mut jobs {
+        for j in jobs.iter_mut().filter(|j| j.0 != Sim::Jumbo) {
             j.1 = n;
         }
     }
@@ -748,18 +745,24 @@ fn self_cmd() -> std::process::Command {
     std::process::Command::new(std::env::current_exe().expect("current exe"))
 }
 
-fn job_list(args: &Args, prop: &str, tier: &str) -> Vec<(Sim, usize)> {
-    // (Sim J needs about 13 GiB and 10-20 s per run in the release profile: thorough tier, release profile only)
-    let mut jobs: Vec<(Sim, usize)> = plan(prop)
+/// The plan of a property for this tier and build profile.
+fn planned_jobs(prop: &str, tier: &str) -> Vec<(Sim, usize)> {
+    // (Sim J needs about 13 GiB and 15-30 s per run in the release profile and several times that with overflow
+    // checks and debug assertions: release profile only)
+    plan(prop)
         .into_iter()
         .map(|(s, q, t)| (s, if s == Sim::Jumbo && BUILD_PROFILE == "checked" { 0 } else { scale_for_profile(if tier == "thorough" { t } else { q }) }))
         .filter(|(_, n)| *n > 0)
-        .collect();
+        .collect()
+}
+
+fn job_list(args: &Args, prop: &str, tier: &str) -> Vec<(Sim, usize)> {
+    let mut jobs: Vec<(Sim, usize)> = planned_jobs(prop, tier);
     if let Some(only) = args.get("sim").and_then(Sim::from_name) {
         jobs.retain(|j| j.0 == only);
     }
     if let Some(n) = args.get("runs").and_then(|v| v.parse::<usize>().ok()) {
-        for j in &mut jobs {
+        for j in jobs.iter_mut().filter(|j| j.0 != Sim::Jumbo) {
             j.1 = n;
         }
     }
@@ -917,7 +920,7 @@ fn cmd_hashes(args: &Args) -> i32 {
     let master = args.num("seed", 1) as u64;
     let n = args.num("runs", 50);
     warm_tables();
-    let jobs: Vec<(Sim, usize)> = plan(&prop).into_iter().map(|(s, _, _)| (s, n)).collect();
+    let jobs: Vec<(Sim, usize)> = plan(&prop).into_iter().filter(|(s, _, _)| *s != Sim::Jumbo).map(|(s, _, _)| (s, n)).collect();
     let out = run_batch(&prop, master, &jobs, worker_count(args), &[], true, None);
     for (s, i, h) in &out.hashes {
         println!("{} {} {}", s.name(), i, h);
